@@ -112,7 +112,7 @@ def run(tier, seed, t0):
     dl = [0, 1, 64, 65, 96, 97, 98, 99, 129, 130, 352, 353] if tier == "quick" else list(range(0, 140)) + [351, 352, 353, 354, 400]
     jobs = [(lambda m=m: ob_encrypt(m, 3)) for m in ml] + [lambda: ob_encrypt(5, 0), lambda: ob_encrypt(5, 17)]
     jobs += [(lambda L=L: ob_decrypt(L, 3)) for L in dl]
-    jobs += [(lambda k=k: ob_kdf(64, k)) for k in (1, 32, 33, 287)]
+    jobs += [(lambda k=k: ob_kdf(64, k)) for k in (1, 32, 33, 287, 8161)]
     import c13
     jobs += [lambda: c13.g1_ob("is_on_curve", 1, c13.chk_on_curve, "is_on_curve")]
     res = run_parallel(jobs, nproc=12)
